@@ -912,12 +912,18 @@ class Fxp():
                     val = val.astype(original_vdtype)       # (unsigned 64-bit values stay as they are: 2**63 and above are no int64)
                 val_dtype = np.int64 if self.signed else np.uint64
 
+            # integers of more than 53 bits that lose bits (negative n_frac) are divided exactly: the float factor would round them first
+            if isinstance(conv_factor, float) and np.size(val) > 0 and (np.asarray(val).dtype == object or \
+                (np.asarray(val).dtype.kind in 'iu' and (int(np.max(val)) >= 2**53 or int(np.min(val)) <= -2**53))):
+                val = np.asarray(val).astype(object)        # (np.asarray: a scaled object hands over a NumPy or python scalar)
+                conv_factor = Fraction(1, 1 << -self.n_frac)
+
             # rounding and overflowing
             new_val = self._round(self._scale(val, conv_factor), method=self.config.rounding)
             new_val = self._overflow_action(new_val, val_min, val_max)
 
             # convert to array of val_dtype
-            new_val = new_val.astype(val_dtype)
+            new_val = np.asarray(new_val).astype(val_dtype)
 
             if val_dtype == object:       
                 # convert each element to int
